@@ -1,7 +1,7 @@
 (* C06 property theorems.  Nothing but statements closed by `exact`, a pin, and
    Print Assumptions.  The driver parses this file's output. *)
 From ZV.Common Require Import Base.
-From ZV.C06 Require Import Model ModelGold ModelEasy ModelIdx ModelFast ModelStr ModelEasyX Spec ProofsBasic ProofsScan ProofsRefine ProofsSmall ProofsGoldRefine ProofsEasy ProofsIdxRefine ProofsFast ProofsStr ProofsEasyX.
+From ZV.C06 Require Import Model ModelGold ModelEasy ModelIdx ModelFast ModelStr ModelEasyX ModelIdxX Spec ProofsBasic ProofsScan ProofsRefine ProofsSmall ProofsGoldRefine ProofsEasy ProofsIdxRefine ProofsFast ProofsStr ProofsEasyX ProofsIdxX.
 Open Scope N_scope.
 
 (* normalize_hash never produces a slot marker, whatever the hasher returned *)
@@ -160,3 +160,17 @@ Check easy_ext_refines_map :
   forall (h : N -> N) (grow : N -> N -> bool) (auto : bool) (c : N) (ops : list op),
     pow2cap c -> Forall2 obs_agree (easy_runx h grow auto (init c) ops) (srunx [] ops).
 Print Assumptions easy_ext_refines_map.
+
+(* --- extension: GoldHashIdx::insert_batch = pre-sizing (code 16: resize_to(next_power_of_two((len + n) * 2)) when that
+   exceeds the capacity - a growth to ANY power of two, not only the doubling of insert) followed by the insert loop
+   (code 17, answer discarded).  Neither step ever fails (no OErr) and the contents are those of the mathematical map. --- *)
+Theorem idx_batch_refines_map :
+  forall (h : N -> N) (c : N) (ops : list op),
+    Forall (fun o => fst (fst o) <= 5 \/ fst (fst o) = 16 \/ fst (fst o) = 17) ops ->
+    Forall2 obs_agree (irunx h (iinit c) ops) (sruni [] ops).
+Proof. exact idx_batch_refines_map_proof. Qed.
+Check idx_batch_refines_map :
+  forall (h : N -> N) (c : N) (ops : list op),
+    Forall (fun o => fst (fst o) <= 5 \/ fst (fst o) = 16 \/ fst (fst o) = 17) ops ->
+    Forall2 obs_agree (irunx h (iinit c) ops) (sruni [] ops).
+Print Assumptions idx_batch_refines_map.
